@@ -98,6 +98,9 @@ def run(ctx):
         # protocol half: histories of the metadata model (files found on disk against the partition of the specification)
         s1, bad = mc.e2(ctx, digital_rf, ctx.pick(15, 400), ctx.pick(18, 26), deep=False)
         s2 = mc.e3(ctx, digital_rf, ctx.pick(20, 600), "c12")
+        # write calls in any order (back-filling earlier periods and new earlier subdirectories, indices of one call unsorted)
+        # interleaved with reads by long-lived readers: the reader has to look where the writer put every sample
+        s2 += mc.e3(ctx, digital_rf, ctx.pick(16, 400), "c20")
     ctx.evaluations = len(evs) + sum(1 for s in s1 + s2 for e in s["events"] if e["ev"] == "write")
     ctx.extra.update(configurations=nconf, placement_records=len(evs), spec_behaviours_replayed=len(s1), random_histories=len(s2),
                      records_not_found_by_reader=sum(1 for e in evs if not e["found"]),
